@@ -2,5 +2,5 @@ SPECIFICATION MCSpec
 CONSTANTS MaxLen = 2
           BlobLens = {0, 1, 253, 254, 255, 256}
           KSet = {7, 15, 23, 31, 39, 63}
-INVARIANTS SizeOK ReadBack ExactConsumption NoStuck Canonical SelfDelimiting Complete
+INVARIANTS SizeOK ReadBack ExactConsumption NoStuck Canonical SelfDelimiting Complete FastAgree
 CHECK_DEADLOCK FALSE
